@@ -582,8 +582,26 @@ func (ex *Exec) callFunction(caller *frame, fn *ssa.Function, args []value, env 
 	return ex.callFunctionBody(caller, fn, args, env, pos)
 }
 
+// packages whose code depends on runtime internals the executor does not model (type
+// descriptors, weak pointers, interning): calling into them without a model is unsupported
+// rather than silently approximate
+var opaquePkgs = map[string]bool{"unique": true, "reflect": true, "internal/reflectlite": true, "runtime": true, "weak": true, "internal/weak": true, "internal/abi": true, "sync/atomic": true, "internal/runtime/atomic": true}
+
 func (ex *Exec) callFunctionBody(caller *frame, fn *ssa.Function, args []value, env []value, pos token.Pos) value {
 	name := fn.String()
+	pk := fn.Pkg
+	if pk == nil && fn.Origin() != nil {
+		pk = fn.Origin().Pkg // instantiation of a generic function
+	}
+	if pk != nil && pk.Pkg.Path() == "net" {
+		n := fn.Name()
+		if strings.HasPrefix(n, "Resolve") || strings.HasPrefix(n, "Dial") || strings.HasPrefix(n, "Listen") || strings.HasPrefix(n, "Lookup") || strings.Contains(name, "Resolver)") {
+			panic(unsupported{"name resolution / network I/O is not modelled: " + name})
+		}
+	}
+	if pk != nil && opaquePkgs[pk.Pkg.Path()] {
+		panic(unsupported{"call into " + pk.Pkg.Path() + " (runtime-dependent, not modelled): " + name})
+	}
 	if fn.Blocks == nil {
 		panic(unsupported{"no code for function: " + name})
 	}
